@@ -4,21 +4,23 @@
     and extensions ([XmlExtract.extract_all]).  The float parsers and the one float division of
     the extractors are parameters, as in Model/XmlExtract.v.  No proofs here. *)
 From E57 Require Import Base.Prelude Model.Device Model.PagedReader Model.FileBin Model.ReaderOpen
-  Model.Meta Model.MetaFile Model.XmlTree Model.XmlParse Model.XmlExtract.
+  Model.Meta Model.MetaFile Model.XmlTree Model.XmlParse Model.XmlDepth Model.XmlExtract.
 
 Section Full.
 Variables pf64 pf32 : xstr -> option N.
 Variable fdiv : N -> Z -> N.
 
-(** from the bytes of the XML section to the metadata.  Documents outside the parser model
-    ([XmlUnsupported]: more than 65535 namespace declarations) are answered like a parse error;
-    the tie counts them separately. *)
+(** from the bytes of the XML section to the metadata, in the order of the code: UTF-8 check
+    (Error::Read), nesting depth ([xml::check_depth], Error::Invalid), parser (Error::Invalid),
+    extractors.  Documents outside the parser model ([Unsupported]: more than 65535 namespace
+    declarations) are answered like a parse error; the tie counts them separately. *)
 Definition xml_meta (xml : list N) : res file_meta :=
-  match xml_read xml with
-  | XmlErrUtf8 => Err ERead
-  | XmlErrParse => Err EInvalid
-  | XmlUnsupported => Err EInvalid
-  | XmlOk d => extract_all pf64 pf32 fdiv d
+  if negb (forallb (fun b => b <? 256) xml && utf8_valid xml) then Err ERead else
+  if negb (xml_depth_ok xml) then Err EInvalid else
+  match xml_parse xml with
+  | ParseOk d => extract_all pf64 pf32 fdiv d
+  | ParseErr => Err EInvalid
+  | Unsupported => Err EInvalid
   end.
 
 (** what the reader holds after [new]: the paged reader, the validated header, the XML text and
